@@ -56,6 +56,7 @@ fn tab_columns(s: &str) -> (r: usize)
     ensures r as int == tab_pieces(s@), 1 <= r <= usize::MAX / 2 + 1,
 { s.split('\t').count() }
 fn min_usize(a: usize, b: usize) -> (r: usize) ensures r == (if a <= b { a } else { b }) { if a <= b { a } else { b } }
+fn saturating_sub_usize(a: usize, b: usize) -> (r: usize) ensures r == (if a >= b { a - b } else { 0 }) { if a >= b { a - b } else { 0 } }
 fn max_usize(a: usize, b: usize) -> (r: usize) ensures r == (if a >= b { a } else { b }) { if a >= b { a } else { b } }
 
 // ---------------- specification vocabulary (from the property / the BED format) ----------------
@@ -84,8 +85,8 @@ pub open spec fn extra_name(i: int) -> Seq<char> {
 //@sub /const FIELDS: &\[&str\] = &\[/ => let FIELDS: Vec<&'static str> = vec![ min=1
 //@sub /^(\s*)"\s*[\w\[\]]+\s+(\w+);[^\n]*\\n",$/ => \1"\2", min=0
 //@sub /for (\w+) in &FIELDS\[([^\]]*?)\.\.([^\]]*)\] \{/ => for i__1 in \2..\3 { let \1 = FIELDS[i__1]; min=1
-//@sub /(\w+)\.(min|max)\((\w+\.len\(\))\)/ => \2_usize(\1, \3) min=0
-//@sub /&format!\(\s*"\s*lstring field\{\};[^"]*(?:\\"[^"]*)*",\s*([^()]*?)\s*\)/ => numbered_field(\1) min=1
+//@sub /(\w+)\.(min|max|saturating_sub)\((\w+\.len\(\))\)/ => \2_usize(\1, \3) min=0
+//@sub /&format!\(\s*"\s*lstring field\{\};[^"]*(?:\\"[^"]*)*",\s*([^;]*?)\s*\)(?=\s*\))/ => numbered_field(\1) min=0
 //@ret r
 //@sig
     ensures
